@@ -148,6 +148,21 @@ def extract(view, bs, closures):
         if s.ek == "IncorrectValueKind" and other_t is not None and s.bb in dominated(view, other_t):
             sk.kind_site = s
     fs_locals = fieldstate_locals(view)
+    # a field state local is one that is (re)assigned inside a loop; shadowing `let x = x.map(..)` after the loop is not
+    loop_blocks = set()
+    for h, bd in view.loops():
+        loop_blocks |= bd
+    chosen = {}
+    for name, ls in fs_locals.items():
+        keep = []
+        for l in ls:
+            ds = [d for d in view.whole_defs(l) if d[0] in ("stmt", "call")]
+            in_loop = any(d[1] in loop_blocks for d in ds)
+            before_loop = any(any(view.dominates(d[1], h) for h, bd in view.loops()) for d in ds)
+            if in_loop or before_loop or not view.loops():
+                keep.append(l)
+        chosen[name] = keep or ls
+    fs_locals = chosen
     view.set_opaque([l for ls in fs_locals.values() for l in ls])
     disps = string_dispatches(view)
     if labels == ["String"]:
@@ -415,7 +430,7 @@ def _unwrap_map(view, term, nf):
                 if src == ("multi", l):
                     fname = name
             fpath = f[1] if f[0] == "fnconst" else None
-            return (fname, fpath)
+            return (fname, fpath, inner[1])
         src = inner
         for name, l in nf.F.items():
             if src == ("multi", l):
